@@ -257,6 +257,7 @@ class State:
         self.pending = []         # alternative prefixes discovered on this run
         self.counter = itertools.count()
         self.refine = {}          # chunk id -> list of segments (its expansion)
+        self.refined_chunks = {}  # chunk id -> Chunk
         self.keep = []            # keep z3 terms alive (ids are reused otherwise)
         self.pack_cache = {}
         self.str_lits = {}
@@ -435,8 +436,43 @@ class State:
             else:
                 total += 1
         self.refine[chunk.key()] = list(segs)
+        self.refined_chunks[chunk.key()] = chunk
         self.keep.append(chunk.t)
         self.assume(chunk.len == z3.Sum([z3.IntVal(total)] + terms))
+        # the same octet sequence is later *named* by this chunk again (see name_rope)
+        flat = self.expand(list(segs))
+        key = ('name', tuple(('c', x.key()) if isinstance(x, Chunk) else ('i', x) if isinstance(x, int)
+                             else ('b', x.get_id()) for x in flat))
+        self.pack_cache.setdefault(key, chunk)
+
+    @staticmethod
+    def _segkey(segs):
+        return ('name', tuple(('c', s.key()) if isinstance(s, Chunk) else ('i', s) if isinstance(s, int)
+                              else ('b', s.get_id()) for s in segs))
+
+    def name_rope(self, segs, base='named'):
+        """A Bytes term denoting the concatenation of segs.  Interned: the same
+        segment sequence always gets the same name (so UF congruence applies)."""
+        segs = self.expand(segs)
+        segs = [s for s in segs if not (isinstance(s, Chunk) and self.must(s.len == 0))]
+        if not segs:
+            key = ('name', ())
+        else:
+            key = ('name', tuple(('c', s.key()) if isinstance(s, Chunk) else ('i', s) if isinstance(s, int)
+                                 else ('b', s.get_id()) for s in segs))
+        if key in self.pack_cache:
+            return self.pack_cache[key]
+        if len(segs) == 1 and isinstance(segs[0], Chunk):
+            return segs[0]
+        # an older name whose (since refined) expansion is this very sequence
+        for ck, chunk in list(self.refined_chunks.items()):
+            if ck in self.refine and self._segkey(self.expand(self.refine[ck])) == key:
+                self.pack_cache[key] = chunk
+                return chunk
+        c = self.new_chunk(base)
+        self.refine_chunk(c, segs)
+        self.pack_cache[key] = c
+        return c
 
     def split_first_bytes(self, chunk, k):
         """chunk (length >= k known) -> k fresh byte atoms + remainder chunk."""
@@ -704,6 +740,8 @@ class State:
                 self.assume(t != ot)
             self.str_lits[v] = t
             self.str_facts(t)
+            for hook in getattr(self, 'literal_hooks', ()):
+                hook(self, v, t)
             try:
                 enc = v.encode('utf-8')
                 self.assume(z3.And(nchars(t) == len(v), encodable(t), blen(utf8(t)) == len(enc)))
@@ -732,11 +770,7 @@ class State:
         segs = [s for s in segs if not (isinstance(s, Chunk) and self.must(s.len == 0))]
         if not segs:
             return ''
-        if len(segs) == 1 and isinstance(segs[0], Chunk):
-            c = segs[0]
-        else:
-            c = self.new_chunk('named')
-            self.refine_chunk(c, segs)
+        c = self.name_rope(segs)
         if not self.branch(utf8_valid(c.t), 'bytes.decode:valid'):
             raise Raised(UnicodeDecodeError, ())
         s = utf8_dec(c.t)
